@@ -52,7 +52,7 @@ META = {
     ),
     "bounds": {
         "quick": "1 token (32, incl. 5 RST inline literals) at the end of every site and the 10 dangerous tokens at start / middle of the class docstring",
-        "thorough": "1 token at all sites and positions; all pairs at the end of every site, pairs of the 10 dangerous tokens at start / middle",
+        "thorough": "1 token at all sites and positions; all pairs of the 10 dangerous tokens at the end of every site",
     },
     "assumptions": [
         "C#, Go and C++ have no parser here: the lexer written for this check (comments, "
@@ -147,9 +147,8 @@ def cases(tier: str) -> Iterator[Tuple[str, Tuple[str, ...], str]]:
             for token in TOKENS:
                 yield site, (token,), position
     for site in SITES:
-        for position in ("start", "middle", "end"):
-            for first, second in itertools.product(TOKENS if position == "end" else DANGEROUS, repeat=2):
-                yield site, (first, second), position
+        for first, second in itertools.product(DANGEROUS, repeat=2):
+            yield site, (first, second), "end"
 
 
 SLICES = {"quick": 32, "thorough": 96}
